@@ -211,8 +211,16 @@ func depth2(lv []*Expr, layouts []Layout) *core.Family {
 	}
 }
 
-// depth 3 over the precedence-relevant operators (one representative per level).
-func depth3() *core.Family {
+// D3 is one depth-3 tree: root operator name and the expression.
+type D3 struct {
+	Root string
+	E    *Expr
+}
+
+// Depth3Exprs: every root (operator x operand position) over every depth-2 subtree of the
+// precedence-relevant operators (one or more representatives per grammar level). Shared
+// with the marshalling checks (C08, C09).
+func Depth3Exprs() []D3 {
 	type mk func(a []*Expr) *Expr
 	type op struct {
 		name  string
@@ -275,23 +283,33 @@ func depth3() *core.Family {
 			roots = append(roots, root{o, pos})
 		}
 	}
-	return &core.Family{
-		Name: "depth3",
-		Desc: fmt.Sprintf("every root (%d operators x operand position) over every depth-2 subtree (%d) of %d precedence-relevant operators (one or more per grammar level), 2 parenthesisation modes x 4 layouts", len(ops), len(d2), len(ops)),
-		N:    int64(len(roots) * len(d2)),
-		Run: func(t *core.T, i int64) {
-			r := roots[int(i)/len(d2)]
-			sub := d2[int(i)%len(d2)]
+	var out []D3
+	for _, r := range roots {
+		for _, sub := range d2 {
 			args := make([]*Expr, r.o.arity)
 			for j := range args {
 				args[j] = lv[(j+2)%len(lv)]
 			}
 			args[r.pos] = sub
-			e := r.o.f(args)
+			out = append(out, D3{r.o.name, r.o.f(args)})
+		}
+	}
+	return out
+}
+
+// depth 3 over the precedence-relevant operators (one representative per level).
+func depth3() *core.Family {
+	all := Depth3Exprs()
+	return &core.Family{
+		Name: "depth3",
+		Desc: fmt.Sprintf("every root (operator x operand position) over every depth-2 subtree of 20 precedence-relevant operators (one or more per grammar level): %d trees, 2 parenthesisation modes x %d layouts", len(all), len(allLayouts)),
+		N:    int64(len(all)),
+		Run: func(t *core.T, i int64) {
+			e := all[i].E
 			if !inDomain(e) {
 				return
 			}
-			checkPolicy(t, "d3:"+r.o.name, when(e), allModes, allLayouts)
+			checkPolicy(t, "d3:"+all[i].Root, when(e), allModes, allLayouts)
 			t.Nontrivial()
 			t.SampleF(func() string { return Join(PolicyTokens(when(e), MinParens), LayoutSpaces) })
 		},
